@@ -105,6 +105,17 @@ def stepThr (s : St) (i : Nat) : St × String :=
     | .ok => (s, "done")
     | .full => (s, "done")
 
+/-- The call of submitter `i` is left by a panic of user code while the submission is being
+filled (`fill_submission` runs a user `Buf`/`BufMut`; pc `w2`: the slot was reset, nothing is
+written yet or only part of it): unwinding drops the lock guard, the tail is not stored. -/
+def abortThr (s : St) (i : Nat) : St :=
+  match s.thr[i]? with
+  | some t =>
+    match t.pc with
+    | .w2 _ => { setThr s i { t with pc := .full } with lock := none }
+    | _ => s
+  | none => s
+
 /-- The kernel consumes one entry if one is published. -/
 def stepKernel (s : St) : St × String :=
   if s.H < s.T then
